@@ -79,7 +79,7 @@ pub fn start_watchdog(w: Arc<Watch>, prop: &'static str, limit: Duration) -> std
                     let mut it = cur.splitn(2, '\u{1}');
                     let what = it.next().unwrap_or("?").to_string();
                     let input = it.next().unwrap_or("").to_string();
-                    let dir = format!("{}/replays/{}", VERIF_DIR, prop);
+                    let dir = format!("{}/replays/{}", out_dir(), prop);
                     let _ = std::fs::create_dir_all(&dir);
                     let path = format!("{}/hang-{}.json", dir, i);
                     let rec = json!({"property": prop, "clause": format!("hang:{}", what), "key": format!("{}|hang:{}|input={:?}", prop, what, input),
